@@ -20,32 +20,72 @@ def has_unknown(d):
   return d is UNKNOWN or d is None
 
 
+def _transform_forms(repo, c):
+  """Every return form of transform(X) (one per path), for path-wise
+  substitution into the views that call it."""
+  f = repo.resolve_method(c, 'transform')
+  if not isinstance(f, FuncInfo):
+    return None, []
+  dom = new_dom()
+  eng = Engine(repo, dom, self_cls=c)
+  flow = eng.run(f, args={'X': V(Poly.sym('X', 'rows'))})
+  forms = []
+  for (v, st, n) in flow.returns:
+    if v.d not in forms:
+      forms.append(v.d)
+  return f, forms
+
+
+def _subst_rows(form, arg):
+  """form is a rows Poly in the symbol X; replace X by the rows Poly arg."""
+  if not isinstance(form, Poly) or not isinstance(arg, Poly):
+    return UNKNOWN
+  out = Poly({}, 'rows')
+  xatom = A('X', 'rows')
+  for m, c_ in form.terms.items():
+    if not m or m[0] != xatom:
+      return UNKNOWN
+    tail = Poly({m[1:]: c_}, 'mat')
+    out = out.add(arg.mul(tail, 'rows'))
+  return out
+
+
 def eval_views(repo, c):
   """Normal forms of the metric views of estimator class c."""
   out = {}
   info = {}
+  tf, tforms = _transform_forms(repo, c)
 
-  def run(name, args):
+  def run(name, args, tform=None):
     f = repo.resolve_method(c, name)
     if not isinstance(f, FuncInfo):
       return None, None, None
     dom = new_dom()
+    if tform is not None and tf is not None:
+      dom.summaries[tf.key] = lambda a, k, tform=tform: _subst_rows(
+          tform, (a[1] if len(a) > 1 else k.get('X')).d)
     eng = Engine(repo, dom, self_cls=c)
     flow = eng.run(f, args=args)
     return f, dom, (eng, flow)
 
   for name in ('pair_distance', 'pair_score', 'score_pairs'):
-    f, dom, r = run(name, {'pairs': V(Tup('P', [0, 1]),
-                                      origin=('param', 'pairs'))})
-    if f is None:
-      continue
-    eng, flow = r
-    forms = [v.d for (v, st, n) in flow.returns]
-    if dom.divisions:
-      forms = [('divides', dom.divisions[0]) for _ in forms]
-    warned = [('warn', 'FutureWarning') in dom.must(st)
-              for (v, st, n) in flow.returns]
-    out[name] = (f, forms, warned)
+    allforms, allwarn, f0 = [], [], None
+    # one evaluation per path of transform (no join of its return forms)
+    for tform in (tforms if len(tforms) > 1 else [None]):
+      f, dom, r = run(name, {'pairs': V(Tup('P', [0, 1]),
+                                        origin=('param', 'pairs'))}, tform)
+      if f is None:
+        continue
+      f0 = f
+      eng, flow = r
+      forms = [v.d for (v, st, n) in flow.returns]
+      if dom.divisions:
+        forms = [('divides', dom.divisions[0]) for _ in forms]
+      allforms.extend(forms)
+      allwarn.extend(('warn', 'FutureWarning') in dom.must(st)
+                     for (v, st, n) in flow.returns)
+    if f0 is not None:
+      out[name] = (f0, allforms, allwarn)
   f, dom, r = run('transform', {'X': V(Poly.sym('X', 'rows'))})
   if f is not None:
     out['transform'] = (f, [v.d for (v, st, n) in r[1].returns], None)
@@ -69,9 +109,14 @@ def eval_views(repo, c):
         eng._dead = False
         dom.divisions = []
         res = eng.call_value(v, [u, w], {'squared': sqv}, f.node, st.copy(),
-                             f)
-        forms.append(('divides', dom.divisions[0]) if dom.divisions
-                     else res.d)
+                             f, want_flow=True)
+        if isinstance(res, tuple) and res and res[0] == 'flow':
+          ds = [r[0].d for r in res[1]]
+        else:
+          ds = [res.d]
+        for d_ in ds:
+          forms.append(('divides', dom.divisions[0]) if dom.divisions
+                       else d_)
       out['get_metric(squared=%s)' % sq] = (f, forms, None)
   return out
 
@@ -163,7 +208,7 @@ def check_views(repo, rep, which):
                     sample=dict(rule=rule, view=key, normal_form=repr(d))
                     if n in (1, 3, 4) else None)
         if q is not None and status == 'derived':
-          quads[name] = q
+          quads.setdefault(name, []).append(q)
       if name == 'score_pairs' and which == 'C02':
         if all(warned):
           rep.derived(RW, key, site(f))
@@ -198,14 +243,16 @@ def check_views(repo, rep, which):
         else:
           rep.refuted(RM, key, site(f), 'get_mahalanobis_matrix normalises '
                       'to %r, expected L\'.L' % (d,))
-    for name, q in quads.items():
+    for name, qs in quads.items():
       key = '%s.%s' % (c.name, name)
       f = views[name][0]
-      if q.M == LT_L:
-        rep.derived(RM, key, site(f))
-      else:
-        rep.refuted(RM, key, site(f), 'squared distance uses the matrix %r '
-                    'where the other views use L\'.L' % (q.M,))
+      for q in qs:
+        if q.M == LT_L:
+          rep.derived(RM, key, site(f))
+        else:
+          rep.refuted(RM, key, site(f), 'on some path the squared distance '
+                      'uses the matrix %r where the other views use L\'.L'
+                      % (q.M,))
   rep.floor('metric view forms evaluated', n, 85)
 
 
